@@ -69,4 +69,7 @@ def main(argv: list[str] | None = None) -> int:
 
 
 if __name__ == "__main__":
+    import signal
+
+    signal.signal(signal.SIGPIPE, signal.SIG_DFL)
     sys.exit(main())
